@@ -14,10 +14,12 @@ use std::sync::Arc;
 
 const POLICIES: [Policy; 3] = [Policy::Eager, Policy::Lazy, Policy::OnDemand];
 
+/// "fail alike" = all fail; the wording of the message is not compared across
+/// policies (each store formats its own), only recorded
 fn norm(o: &Outcome) -> String {
     match o {
         Outcome::Ok(s) => format!("ok:{s}"),
-        Outcome::RenderErr(e) => format!("err:{}", first_line(e)),
+        Outcome::RenderErr(_) => "err".to_string(),
         Outcome::ParseErr(e) => format!("parse-err:{}", first_line(e)),
         Outcome::Panic(m) => format!("panic:{m}"),
         Outcome::Corrupt(m) => format!("corrupt:{m}"),
@@ -169,13 +171,13 @@ fn observe(store: &dyn PartialStore, op: u64) -> String {
         let mut buf = Vec::new();
         match r.render_to(&mut buf, &rt) {
             Ok(()) => format!("rendered:{}", String::from_utf8_lossy(&buf)),
-            Err(e) => format!("render-err:{}", first_line(&e.to_string())),
+            Err(_) => "render-err".to_string(),
         }
     };
     match op % 4 {
         0 => match store.get(n) {
             Ok(r) => format!("get({n})=ok:{}", render(r)),
-            Err(e) => format!("get({n})=err:{}", first_line(&e.to_string())),
+            Err(_) => format!("get({n})=err"),
         },
         1 => match store.try_get(n) {
             Some(r) => format!("try_get({n})=some:{}", render(r)),
